@@ -623,4 +623,42 @@ theorem updateVal_kept_or_new (g : Bool) (dv : Option JVal) (v : JVal) (hwf : wf
   · exact updateVal_self g v hwf hf
   · rw [updateVal_none g v hwf, hf]
 
+/-! ### 5. `json_checker` dictionaries -/
+
+theorem acceptsEntries_iff (o : Oracle) (entries : List (String × Bool × Schema)) (kvs : Dict) :
+    Schema.acceptsEntries o entries kvs = true ↔
+      ∀ e ∈ entries, (match Dict.lookup kvs e.1 with
+                      | some v => Schema.accepts o e.2.2 v = true
+                      | none => e.2.1 = true) := by
+  induction entries with
+  | nil => simp [Schema.acceptsEntries]
+  | cons e rest ih =>
+    obtain ⟨k, opt, s⟩ := e
+    simp only [Schema.acceptsEntries, Bool.and_eq_true, ih, List.mem_cons, forall_eq_or_imp]
+    constructor
+    · intro ⟨h1, h2⟩
+      refine ⟨?_, h2⟩
+      cases hl : Dict.lookup kvs k <;> simp_all
+    · intro ⟨h1, h2⟩
+      refine ⟨?_, h2⟩
+      cases hl : Dict.lookup kvs k <;> simp_all
+
+/-- `Checker(schema).validate(cfg)` for a dictionary schema: every named key validates (an absent
+    one must be optional) and the dictionary has no other key; a non-dictionary is refused -/
+theorem dict_accepts_iff (o : Oracle) (entries : List (String × Bool × Schema)) (kvs : Dict) :
+    Schema.accepts o (.dict entries) (.obj kvs) = true ↔
+      (∀ e ∈ entries, (match Dict.lookup kvs e.1 with
+                       | some v => Schema.accepts o e.2.2 v = true
+                       | none => e.2.1 = true)) ∧
+      (∀ kv ∈ kvs, ∃ e ∈ entries, e.1 = kv.1) := by
+  have h : Schema.accepts o (.dict entries) (.obj kvs) =
+      (Schema.acceptsEntries o entries kvs && kvs.all (fun kv => entries.any (fun e => e.1 == kv.1))) := by
+    rw [Schema.accepts]
+  rw [h]
+  simp only [Bool.and_eq_true, acceptsEntries_iff, List.all_eq_true, List.any_eq_true, beq_iff_eq]
+
+theorem dict_accepts_leaf (o : Oracle) (entries : List (String × Bool × Schema)) (v : JVal)
+    (h : v.isObj = false) : Schema.accepts o (.dict entries) v = false := by
+  cases v <;> simp [JVal.isObj] at h <;> rw [Schema.accepts]
+
 end Pandora.Merge
